@@ -52,4 +52,23 @@ def chunks16 (b : Bytes) : List Bytes :=
 termination_by b.length
 decreasing_by simp only [List.length_drop]; omega
 
+/-- The block loops of the C sources,
+`while (cond(count)) { body(block of bs octets at buf); buf += bs; count -= bs; }`,
+as a recursion over the not-yet-processed rest of the buffer, carrying the mode state `s`.
+`fuel` (= initial count) bounds the number of iterations; every iteration consumes `bs ≥ 1` octets.
+Returns (final state, processed octets, untouched rest). -/
+def blockLoop {σ : Type} (bs : Nat) (cond : Nat → Bool) (body : σ → Bytes → σ × Bytes) :
+    Nat → σ → Bytes → σ × Bytes × Bytes
+  | 0, s, rest => (s, [], rest)
+  | fuel + 1, s, rest =>
+    if cond rest.length then
+      let r := body s (rest.take bs)
+      let t := blockLoop bs cond body fuel r.1 (rest.drop bs)
+      (t.1, r.2 ++ t.2.1, t.2.2)
+    else (s, [], rest)
+
+/-- `while (count >= bs) …` -/
+def fullBlocks {σ : Type} (bs : Nat) (body : σ → Bytes → σ × Bytes) (s : σ) (buf : Bytes) : σ × Bytes × Bytes :=
+  blockLoop bs (fun n => decide (bs ≤ n)) body buf.length s buf
+
 end Bee2V.C01
